@@ -271,6 +271,9 @@ impl CommitPipeline {
 
 		let (commit_batch, complete_rx) = CommitBatch::new(batch.count());
 
+		#[cfg(feature = "verif")]
+		crate::verif::point("commit.before_lock");
+
 		// === CRITICAL SECTION under write_mutex ===
 		//
 		// Atomically: validate write keys against the oracle map, allocate
@@ -350,11 +353,15 @@ impl CommitPipeline {
 			}
 		};
 		// === END CRITICAL SECTION ===
+		#[cfg(feature = "verif")]
+		crate::verif::point("commit.after_wal");
 
 		// Memtable apply — OUTSIDE write_mutex. The next committer can already
 		// be inside the critical section. This restores the pipeline overlap
 		// that PR #378 destroyed.
 		let apply_result = self.env.apply(&processed_batch);
+		#[cfg(feature = "verif")]
+		crate::verif::point("commit.after_apply");
 
 		// =========================================================================
 		// Failure-path invariants
@@ -392,15 +399,24 @@ impl CommitPipeline {
 		};
 
 		commit_batch.mark_applied();
+		#[cfg(feature = "verif")]
+		crate::verif::point("commit.after_mark_applied");
 
 		// Publish (multi-consumer) - MUST always run to drain queue
 		self.publish();
+		#[cfg(feature = "verif")]
+		crate::verif::point("commit.after_publish");
 
 		if let Some(err) = apply_err {
 			return Err(err);
 		}
 
 		complete_rx.await.map_err(|_| Error::PipelineStall)?
+	}
+
+	#[cfg(feature = "verif")]
+	pub(crate) fn verif_oracle_state(&self) -> (u64, usize) {
+		self.oracle.verif_state()
 	}
 
 	#[cfg(test)]
@@ -417,6 +433,8 @@ impl CommitPipeline {
 				Some(batch) => {
 					// Publish this batch's sequence number
 					let new_visible = batch.get_seq_num() + batch.count as u64 - 1;
+					#[cfg(feature = "verif")]
+					crate::verif::point("publish.dequeued");
 
 					loop {
 						let current = self.visible_seq_num.load(Ordering::Acquire);
@@ -439,6 +457,8 @@ impl CommitPipeline {
 						}
 					}
 
+					#[cfg(feature = "verif")]
+					crate::verif::point("publish.after_visible");
 					// Complete this batch
 					batch.complete(Ok(()));
 				}
